@@ -284,12 +284,15 @@ WHOLE_VALUES = [1, 2, 4, 8, 16, 32, 3, 6, 12, 24, "4.", "8.", "2."]
 BAR_VALUES = [4, 8, 2]
 BAR_MAX = 3
 BAR_METER = (4, 4)
+BAR_EARLIER = []
 
 
 def gen_bars(shard):
     k0, v0 = shard
     pats = [[]] if k0 == "" else Z.reachable_bars(Z.SYMBOLS, BAR_VALUES, BAR_MAX, meter=BAR_METER, first=(k0, v0))
     for pat in pats:
+        if any(tuple(mt) == tuple(BAR_METER) and len(pat) <= mx and all(v in vals for (_k, v) in pat) for (vals, mx, mt) in BAR_EARLIER):
+            continue                                    # already enumerated by an earlier pass
         yield {"comp": {"tracks": [{"name": None, "instrument": None, "bars": [Z.bar_recipe(pat, meter=BAR_METER)]}]}, "bpm": 120}
 
 
@@ -408,7 +411,7 @@ def vlq_ranges(thorough):
 
 
 def explore(ctx):
-    global BAR_VALUES, BAR_MAX, BAR_METER, DEV_DEPTH, DEV_DIMS
+    global BAR_VALUES, BAR_MAX, BAR_METER, BAR_EARLIER, DEV_DEPTH, DEV_DIMS
     thorough = not ctx.quick
     if ctx.want("vlq_inverse"):
         ranges = vlq_ranges(thorough)
@@ -426,8 +429,8 @@ def explore(ctx):
             passes.append(([4, 8, 2, "4.", 6, "8.", 16], 3, (4, 4)))
             passes.append(([4, 8, 2], 3, (6, 8)))
         ctx.bound("bars", [{"symbols": Z.SYMBOLS, "values": v, "max_entries": m, "meter": mt} for v, m, mt in passes])
-        for vals, mx, mt in passes:
-            BAR_VALUES, BAR_MAX, BAR_METER = vals, mx, mt
+        for i, (vals, mx, mt) in enumerate(passes):
+            BAR_VALUES, BAR_MAX, BAR_METER, BAR_EARLIER = vals, mx, mt, passes[:i]
             ctx.product("bars", [("", 0)] + [(k, v) for k in Z.SYMBOLS for v in vals], gen_bars)
     if ctx.want("tracks"):
         ctx.bound("tracks", "1..3 bars from the 12-pattern whole-tick zoo x {one key/meter, three keys/two meters} x {no instrument, MIDI 13}")
